@@ -194,3 +194,84 @@ def run(ctx):
     # ---- R6: the instruction-level facts liveness is computed from ----------
     from .c07 import register_api
     register_api(ctx, "C06.R6")
+    _driver(ctx)
+
+
+def _driver(ctx):
+    """R7: the driver of iterated register coalescing (Appel/George): build - {simplify | coalesce | freeze | select
+    spill}* - select - on actual spills rewrite and START OVER from build."""
+    from .. import sym
+    ctx.rule("C06.R7", "alloc_frame: colours are assigned only when all four worklists are empty; after actual spills every spilled node is rewritten and liveness/interference are rebuilt from the rewritten program; colours are applied only after a round without spills; init_data puts every uncoloured node on exactly one worklist (the ORDER in which the worklists are served and which moves are offered for coalescing only affect code quality and are not checked)", floor=9)
+    af = ctx.fn(RA, "GraphColoringRegisterAllocator.alloc_frame")
+    s = RA + ":GraphColoringRegisterAllocator.alloc_frame"
+    outer = [l for l in af.body if isinstance(l, ast.While) and norm(l.test) == "True"]
+    ctx.need(len(outer) == 1, "alloc_frame: outer `while True` not found")
+    outer = outer[0]
+    inner = [l for l in outer.body if isinstance(l, ast.While) and norm(l.test) == "True"]
+    ctx.need(len(inner) == 1, "alloc_frame: worklist loop not found")
+    inner = inner[0]
+    first = outer.body[0]
+    ctx.ob("C06.R7", s, "every round starts by rebuilding the data (init_data(frame)): a round after spilling sees the rewritten program", isinstance(first, ast.Expr) and norm(first.value) == "self.init_data(frame)", construct="rebuild-each-round", detail=norm(first)[:60])
+    # the if / elif chain of the worklist loop
+    chain, node = [], inner.body[0] if len(inner.body) == 1 and isinstance(inner.body[0], ast.If) else None
+    while isinstance(node, ast.If):
+        chain.append((norm(node.test), [norm(x) for x in node.body]))
+        if len(node.orelse) == 1 and isinstance(node.orelse[0], ast.If):
+            node = node.orelse[0]
+        else:
+            chain.append(("else", [norm(x) for x in node.orelse]))
+            node = None
+    want = {"self.simplify_worklist": "self.simplify()", "self.worklistMoves": "self.coalesc()", "self.freeze_worklist": "self.freeze()", "self.spill_worklist": "self.select_spill()"}
+    got = {t: b[0] for t, b in chain if t != "else" and len(b) == 1}
+    ctx.ob("C06.R7", s, "each non-empty worklist is served by its own step (simplify, coalesce, freeze, select spill)", got == want, construct="worklist-steps", detail=str(got))
+    brk = [b for b in ast.walk(inner) if isinstance(b, ast.Break)]
+    ctx.ob("C06.R7", s, "the worklist loop is left only when all four worklists are empty (the single break sits in the final else)", len(brk) == 1 and chain and chain[-1] == ("else", ["break"]) and len(chain) == 5, construct="exit-when-all-empty")
+    ac = [n for n in outer.body if isinstance(n, ast.Assign) and isinstance(n.value, ast.Call) and norm(n.value.func) == "self.assign_colors"]
+    ok = len(ac) == 1 and outer.body.index(ac[0]) > outer.body.index(inner)
+    ctx.ob("C06.R7", s, "assign_colors runs after the worklist loop and its result (the actual spills) is kept", ok, construct="select-after-worklists")
+    sp = norm(ac[0].targets[0]) if ac else None
+    br = [n for n in outer.body if isinstance(n, ast.If) and sp and norm(n.test) == sp]
+    ok = len(br) == 1
+    if ok:
+        rw = [l for l in br[0].body if isinstance(l, ast.For) and norm(l.iter) == sp]
+        ok = len(rw) == 1 and any(isinstance(c, ast.Call) and norm(c.func) == "self.rewrite_program" and norm(c.args[0]) == norm(rw[0].target) for c in ast.walk(rw[0])) and \
+            not any(isinstance(x, (ast.Break, ast.Continue, ast.If)) for x in ast.walk(rw[0]))
+        ctx.ob("C06.R7", s, "every actually spilled node is rewritten (loads/stores around each use) before the next round", ok, construct="rewrite-all-spills")
+        nobreak = not any(isinstance(x, ast.Break) for st in br[0].body for x in ast.walk(st))
+        done = [x for st in br[0].orelse for x in ast.walk(st) if isinstance(x, ast.Break)]
+        ctx.ob("C06.R7", s, "the outer loop ends only after a round without spills", nobreak and len(done) == 1, construct="done-only-without-spills")
+    else:
+        ctx.ob("C06.R7", s, "the result of assign_colors decides between rewriting and finishing", False, construct="rewrite-all-spills")
+    tail = [norm(x) for x in af.body[af.body.index(outer) + 1:]]
+    ctx.ob("C06.R7", s, "colours are applied to the instructions only after the loop (coalesced moves removed first)", tail == ["self.remove_redundant_moves()", "self.apply_colors()"], construct="apply-after-loop", detail=str(tail))
+    idt = ctx.fn(RA, "GraphColoringRegisterAllocator.init_data")
+    s = RA + ":GraphColoringRegisterAllocator.init_data"
+    calls = [norm(c.func) for c in ast.walk(idt) if isinstance(c, ast.Call)]
+    fg = [n for n in walk_no_nested(idt) if isinstance(n, ast.Assign) and isinstance(n.value, ast.Call) and norm(n.value.func) == "FlowGraph"]
+    ok = len(fg) == 1 and norm(fg[0].value.args[0]) == "self.frame.instructions" and (norm(fg[0].targets[0]) + ".calculate_liveness") in calls and "self.frame.ig.calculate_interference" in calls
+    ig = [n for n in walk_no_nested(idt) if isinstance(n, ast.Assign) and norm(n.targets[0]) == "self.frame.ig"]
+    ok = ok and len(ig) == 1 and norm(ig[0].value) == "InterferenceGraph()" and any(st is ig[0] for st in idt.body) and any(st is fg[0] for st in idt.body)
+    ctx.ob("C06.R7", s, "liveness and a fresh interference graph are computed from the frame's CURRENT instructions", ok, construct="rebuild-liveness-interference")
+    part = [l for l in walk_no_nested(idt) if isinstance(l, ast.For) and norm(l.iter) == "self.frame.ig.nodes"]
+    ok = len(part) == 1
+    if ok:
+        n = norm(part[0].target)
+        ch, node = [], part[0].body[0] if len(part[0].body) == 1 and isinstance(part[0].body[0], ast.If) else None
+        while isinstance(node, ast.If):
+            adds = [norm(c.func.value) for st in node.body for c in ast.walk(st) if isinstance(c, ast.Call) and isinstance(c.func, ast.Attribute) and c.func.attr == "add" and norm(c.args[0]) == n]
+            ch.append((" ".join(norm(node.test).split()), adds))
+            if len(node.orelse) == 1 and isinstance(node.orelse[0], ast.If):
+                node = node.orelse[0]
+            else:
+                adds = [norm(c.func.value) for st in node.orelse for c in ast.walk(st) if isinstance(c, ast.Call) and isinstance(c.func, ast.Attribute) and c.func.attr == "add" and norm(c.args[0]) == n]
+                ch.append(("else", adds))
+                node = None
+        wantp = [("%s.is_colored" % n, ["self.precolored"]), ("not self.is_colorable(%s)" % n, ["self.spill_worklist"]), ("self.is_move_related(%s)" % n, ["self.freeze_worklist"]), ("else", ["self.simplify_worklist"])]
+        ok = ch == wantp
+        ctx.ob("C06.R7", s, "every node goes to exactly one set: precoloured; not trivially colourable -> spill candidates; move related -> freeze; else simplify", ok, construct="partition", detail=str(ch))
+    else:
+        ctx.ob("C06.R7", s, "the nodes of the interference graph are partitioned over the worklists", False, construct="partition")
+    fresh = {norm(n.targets[0]): norm(n.value) for n in walk_no_nested(idt) if isinstance(n, ast.Assign) and len(n.targets) == 1}
+    need = ["self.select_stack", "self.coalescedMoves", "self.constrainedMoves", "self.frozenMoves", "self.activeMoves", "self.worklistMoves", "self.spill_worklist", "self.freeze_worklist", "self.simplify_worklist", "self.precolored"]
+    ok = all(fresh.get(k) in ("[]", "OrderedSet()") for k in need)
+    ctx.ob("C06.R7", s, "every worklist, move set and the select stack start empty in each round (nothing of the round before the spill survives)", ok, construct="fresh-worklists", detail=str([k for k in need if fresh.get(k) not in ("[]", "OrderedSet()")]))
